@@ -135,9 +135,23 @@ def _child(expr, pathway, q):
     from operon_ai.organelles.mitochondria import Mitochondria, MetabolicPathway
     m = Mitochondria(timeout_seconds=0.5, silent=True)
     t0 = time.time()
+    import resource
+    # an address-space cap turns "exhausts memory" into something observable without endangering the machine
+    try:
+        resource.setrlimit(resource.RLIMIT_AS, (3 << 30, 3 << 30))
+    except Exception:
+        pass
+    base = resource.getrusage(resource.RUSAGE_SELF).ru_maxrss
     try:
         r = m.metabolize(expr, {p.value: p for p in MetabolicPathway}[pathway] if pathway else None)
-        q.put(("returned", bool(r.success), time.time() - t0))
+        size = 0
+        try:
+            v = r.atp.value if (r.success and r.atp is not None) else None
+            size = len(v) if isinstance(v, (str, bytes, list, tuple)) else (v.bit_length() // 8 if isinstance(v, int) else 0)
+        except Exception:
+            pass
+        q.put(("returned", bool(r.success), time.time() - t0, size,
+               (resource.getrusage(resource.RUSAGE_SELF).ru_maxrss - base) // 1024))
     except BaseException as e:
         q.put(("raised", type(e).__name__, time.time() - t0))
 
@@ -573,9 +587,13 @@ class C01(Check):
                   ("gcd(2**499999 + 1, 3**300000)", None), ("round(2**499999, -100000)", None),
                   ("pow(3, 2**40000, 2**39999 + 1)", None), ("2**499999 // 3**300000 % 7**100000", None),
                   ("-" * 9000 + "1", None), ("~" * 9000 + "1", None), ("1**" * 3000 + "1", None),
-                  ("int('9' * 9000)", None), ("'a' * 10**4 % ()", None)]
+                  ("int('9' * 9000)", None), ("'a' * 10**4 % ()", None),
+                  # precision pads like a width; bytes formatting; formatting of nested results
+                  ("'%.300000000d' % 7", None), ("'%.300000000f' % 1.5", None), ("'%300000000s' % 'x'", None),
+                  ("'%-300000000d|' % 7", None), ("'%0300000000d' % 7", None), ("'%.300000000e' % 1.5", None),
+                  ("'%5.300000000d' % 7", None), ("'%(a).300000000d' % 7", None)]
         if self.tier == "quick":
-            stream = stream[:10] + stream[12:18] + stream[23:31]
+            stream = stream[:10] + stream[12:18] + stream[23:31] + stream[35:41]
         limit = 4.0
         results = []
         ctx = multiprocessing.get_context("fork")
@@ -601,6 +619,11 @@ class C01(Check):
                 except Exception:
                     r = ("died", p.exitcode, 0)
                 results.append((expr[:40] + (f"...[{len(expr)} chars]" if len(expr) > 40 else ""), r[0]))
+                if r[0] == "returned" and len(r) >= 5 and (r[3] > 20_000_000 or r[4] > 300):
+                    self.violations.append(Violation(
+                        "C01/memory", f"metabolize({expr[:60]!r}) built a result of {r[3]} items/bytes and grew the process by "
+                        f"{r[4]} MB: the size of a result is not bounded",
+                        case={"expr": expr, "pathway": pw, "tools": [], "allowed": None, "silent": True, "child_process": True}))
                 if r[0] == "raised":
                     self.violations.append(Violation("C01/raises", f"metabolize({expr!r}) raised {r[1]}",
                                                      case={"expr": expr, "pathway": pw, "tools": [], "allowed": None, "silent": True}))
